@@ -517,7 +517,12 @@ pub fn check_icmp6(ck: &mut Ck) -> Result<(), Failure> {
     check_payload_slice(ck, "Icmpv6PayloadSlice::from_slice", &m, p, Icmpv6PayloadSlice::from_slice(&gt, p))?;
     let pfs = gt.payload_from_slice(p);
     let e_pfs = s.payload_slice().map(|v| v.to_payload());
-    ensure!(ck, pfs == e_pfs, "Icmpv6Type::payload_from_slice", "icmpv6-payload", "differs-from-payload_slice", kn, "payload_from_slice {:?}, payload_slice().to_payload() {:?}", pfs, e_pfs);
+    if let Err(e) = &pfs {
+        ensure!(ck, len_err_ok(e, m.fixed_len, p.len(), Layer::Icmpv6), "Icmpv6Type::payload_from_slice", "icmpv6-payload", "error-values", kn, "expected required_len {} len {}, got {:?}", m.fixed_len, p.len(), e);
+    }
+    // same verdict and same decoded payload; the numbers of a rejection are judged per entry point above
+    // (the two doors were handed different buffers: the payload / the whole message)
+    ensure!(ck, pfs.is_err() == e_pfs.is_err() && pfs.as_ref().ok() == e_pfs.as_ref().ok(), "Icmpv6Type::payload_from_slice", "icmpv6-payload", "differs-from-payload_slice", kn, "payload_from_slice {:?}, payload_slice().to_payload() {:?}", pfs, e_pfs);
 
     let mut oi = None;
     if m.kind.is_ndp() && p.len() >= m.fixed_len {
